@@ -49,18 +49,20 @@ def run(ctx, broken):
     recs, _ = mcommon.run_lines(ctx, lines, "c04")
     off = {}
     dpf = {}
+    nokf = {}
     for line, io, mo, fa in recs:
         p = line.split(" ", 1)
         o = mcommon.parse_out(io)
         if p[0][3] == "0":
             off[(p[0][:3], p[1])] = o
         dpf[line] = mcommon.parse_facts(fa).get("dp")
+        nokf[line] = mcommon.parse_facts(fa).get("nok")
     for line, io, mo, fa in recs:
         p = line.split(" ", 1)
         if p[0][3] == "1":
             o0 = off.get((p[0][:3], p[1]))
             o1 = mcommon.parse_out(io)
-            if o0 and o0["k"] == "M" and o1["k"] == "M" and not (0 <= o1["score"] - o0["score"] <= 8) and len(res["failures"]) < 400:
+            if o0 and o0["k"] == "M" and o1["k"] == "M" and nokf.get(line) == 1 and not (0 <= o1["score"] - o0["score"] <= 8) and len(res["failures"]) < 5000:
                 c = mcommon.parse_case(line)
                 res["failures"].append({"class": "prefix", "what": "prefer_prefix changes the score from %d to %d (must not lower it nor raise it by more than 8) -- %s" % (o0["score"], o1["score"], mcommon.show_case(c)), "case": line,
                                         "k2": bool(c["algo"] == "F" and len(c["n"]) >= 3 and dpf.get(line) == 1)})
